@@ -165,6 +165,8 @@ type exRec struct {
 	ctxValueOK     bool
 	// reused upstream connections (reuse.go)
 	dropped int
+	upHost  string // the Host the origin received (authority.go)
+	ctlHdr  string // a response header value with a control byte in it
 	// blind tunnel against a resetting target (tunnelrst.go)
 	tunnelGot  int
 	tunnelHung bool
@@ -441,7 +443,14 @@ func (e *Ex) buildRequest(id string, it *item) []byte {
 			host = "timeout.test:1"
 		case "tlsplain", "tlsbadcert", "tlsclose":
 			host = e.faultAddr // the port the https target names does not hold a (trusted) TLS server
+		case "badport":
+			host = "127.0.0.1:99999" // the REAL dialer fails: a *net.OpError without an address
+		case "noname":
+			host = "no-such-host.invalid.:80x"
 		}
+	}
+	if a := authorityOf(it); a != "" && it.s("o", "ok") == "ok" {
+		host = a // routed to the origin by the dial function (authority.go)
 	}
 	if it.s("via", "") == "sniff" && it.s("sec", "0") == "1" && it.s("o", "ok") == "ok" {
 		host = e.sniffAddr // a TLS origin behind a port that tells a ClientHello from a cleartext request
@@ -586,6 +595,7 @@ func (e *Ex) originConn(c net.Conn, isTLS bool) {
 			r.upTLS = isTLS
 			r.upMethod = req.Method
 			r.upURI = req.URL.RequestURI()
+			r.upHost = req.Host
 			r.upBody = sum(body)
 			r.upWarn = len(req.Header["Warning"])
 			if it != nil {
@@ -643,6 +653,10 @@ func (e *Ex) originConn(c net.Conn, isTLS bool) {
 				c.Write(full[:k])
 			case "garbage":
 				c.Write([]byte("\x00\x01NOT HTTP AT ALL\r\n\r\n<html>"))
+			case "ctlname": // almost HTTP: a control byte in a header name - net/textproto quotes the line in its error
+				c.Write([]byte("HTTP/1.1 200 OK\r\nX-Verif\x01\x7fBad\x0bName: v\r\nContent-Length: 0\r\n\r\n"))
+			case "leadsp": // a header section that starts with a continuation line
+				c.Write([]byte("HTTP/1.1 200 OK\r\n \tfolded\x02\x1b[31m start\r\nContent-Length: 0\r\n\r\n"))
 			case "tlsplain", "tlsbadcert", "tlsclose":
 				// the request got here although the TLS layer toward this port cannot work: answer it, so
 				// that what the client receives shows it too
@@ -850,6 +864,11 @@ func (e *Ex) start() {
 	p.SetDial(func(network, addr string) (net.Conn, error) {
 		e.w.mu.Lock()
 		e.w.dials++
+		if _, ok := e.w.items[e.w.current]; ok && (strings.HasSuffix(addr, ":99999") || !strings.Contains(addr, ":") || strings.HasSuffix(addr, ":80x")) {
+			r := e.w.rec(e.w.current) // a dial the real dialer is going to refuse outright
+			r.dialed++
+			r.upSeq = e.w.next()
+		}
 		if e.downstreamDial(addr) {
 			e.w.mu.Unlock()
 			return nil, &net.OpError{Op: "dial", Net: network, Err: syscall.ECONNREFUSED}
@@ -871,6 +890,13 @@ func (e *Ex) start() {
 		}
 		if strings.HasPrefix(addr, "eof.") { // e.g. a downstream hop that hangs up during the dial
 			return nil, io.EOF
+		}
+		if routedName(addr) {
+			target := e.originAddr
+			if it, ok := e.w.items[e.w.current]; (ok && it.s("sec", "0") == "1") || strings.HasSuffix(addr, ":443") {
+				target = e.originTLSAddr
+			}
+			return net.DialTimeout(network, target, 2*time.Second)
 		}
 		if strings.HasPrefix(addr, "rst.") {
 			return net.DialTimeout(network, e.rstAddr, 2*time.Second)
@@ -933,6 +959,15 @@ func (e *Ex) absorb(id string, it *item, res *http.Response, body []byte, berr e
 	r.cp = berr == nil
 	r.stalled = isTimeout(berr)
 	r.downID = res.Header.Get(idHeader)
+	for k, vs := range res.Header {
+		for _, v := range vs {
+			for i := 0; i < len(v); i++ {
+				if (v[i] < 0x20 && v[i] != '\t') || v[i] == 0x7f {
+					r.ctlHdr = fmt.Sprintf("%s: %q", k, v)
+				}
+			}
+		}
+	}
 	// the response modifier's Warning is the one carrying its error text (added last); any other
 	// Warning comes from the round trip / dial failure
 	r.wt = 0
@@ -958,6 +993,7 @@ func (e *Ex) absorb(id string, it *item, res *http.Response, body []byte, berr e
 
 func (e *Ex) runScenario() core.Result {
 	e.start()
+	e.runPreludes()
 	w := e.w
 	raw, err := net.DialTimeout("tcp", e.pl.Addr().String(), 2*time.Second)
 	if err != nil {
@@ -1020,6 +1056,7 @@ func (e *Ex) runScenario() core.Result {
 		}
 	} else {
 		halfSent := 0
+		skipTo := 0
 		for idx, id := range e.ids {
 			if !alive {
 				break
@@ -1031,6 +1068,48 @@ func (e *Ex) runScenario() core.Result {
 			sentIn(id)
 			if ms, err := strconv.Atoi(e.conn["gap"]); err == nil && ms > 0 && idx > 0 {
 				time.Sleep(time.Duration(ms) * time.Millisecond)
+			}
+			if skipTo > idx {
+				continue // answered as part of a pipelined run inside the tunnel
+			}
+			if it.kind == "x" && e.conn["tpipe"] == "1" && curLayer > 0 {
+				// pipelining INSIDE the decrypted connection: this and the following non-CONNECT requests go
+				// out in one write (one TLS record when small), the responses are read in order
+				var all bytes.Buffer
+				run := []string{}
+				for j := idx; j < len(e.ids) && w.items[e.ids[j]].kind == "x"; j++ {
+					all.Write(e.buildRequest(e.ids[j], w.items[e.ids[j]]))
+					run = append(run, e.ids[j])
+					sentIn(e.ids[j])
+				}
+				skipTo = idx + len(run)
+				cc.c.SetWriteDeadline(time.Now().Add(ioTimeout))
+				go cc.c.Write(all.Bytes())
+				for _, rid := range run {
+					rit := w.items[rid]
+					res, body, berr := cc.readResponse(rit.s("m", "GET"))
+					if res == nil {
+						alive = false
+						break
+					}
+					if res.StatusCode == 299 && res.Header.Get("X-Verif-Hijack") == "1" {
+						hijacked = true
+						cc.c.SetReadDeadline(time.Now().Add(ioTimeout))
+						extra, rerr := io.ReadAll(cc.br)
+						w.mu.Lock()
+						w.rec(rid).extraAfterHijack = len(extra)
+						w.rec(rid).closedAfterHijack = !isTimeout(rerr)
+						w.mu.Unlock()
+						alive = false
+						break
+					}
+					e.absorb(rid, rit, res, body, berr)
+					if berr != nil {
+						alive = false
+						break
+					}
+				}
+				continue
 			}
 			switch it.kind {
 			case "x":
@@ -1118,7 +1197,7 @@ func (e *Ex) runScenario() core.Result {
 						authority = "rst.test:1"
 					}
 					if it.s("dial", "1") == "0" {
-						authority = map[string]string{"timeout": "timeout.test:1", "eof": "eof.test:1"}[it.s("dk", "refuse")]
+						authority = map[string]string{"timeout": "timeout.test:1", "eof": "eof.test:1", "badport": "127.0.0.1:99999", "noport": "127.0.0.1"}[it.s("dk", "refuse")]
 						if authority == "" {
 							authority = "dead.test:1"
 						}
@@ -1378,6 +1457,12 @@ func (e *Ex) report(open bool, left int, probeID string) core.Result {
 		}
 		if it.kind == "cblind" && it.s("tg", "") == "rst" && r.got && r.st == 200 && r.tunnelHung {
 			failf("c03:tunnel-hang-after-upstream-reset", "exchange %d: the tunnel's target sent %d bytes and reset the connection; the client got %d bytes and then neither data nor end-of-stream within %v", idx, it.n("k", 0), r.tunnelGot, ioTimeout)
+		}
+		if a := authorityOf(it); a != "" && it.kind == "x" && it.s("o", "ok") == "ok" && r.upCount > 0 && r.upHost != a {
+			failf("c01:host", "exchange %d: the client named the authority %q, the origin received Host: %q", idx, a, r.upHost)
+		}
+		if r.got && r.ctlHdr != "" {
+			failf("c03:malformed-response-header", "exchange %d: the response (status %d) carries a control byte in a header value: %s", idx, r.st, r.ctlHdr)
 		}
 		if r.svSeen != r.svWant {
 			failf("c02:session-value-lost", "exchange %d: of the %d values earlier exchanges of this connection stored in the session only %d are readable (lost:%s)", idx, r.svWant, r.svSeen, r.svLost)
